@@ -204,6 +204,15 @@ fn run<const N: usize>(s: &Scn) -> Result<(), String> {
     }
     if v.len() > v.capacity() { return Err("len > capacity".into()); }
     drop(v);
+    // zero-sized elements: accounting by count
+    if N == 0 && !leaked_ok && !panicked && (fam == 5 || fam == 2) {
+        let total = DROPS.with(|d| d.borrow().values().sum::<u32>()) as usize;
+        if total != len { return Err(format!("{} zero-sized elements were placed in the vector, {} destructor calls ran", len, total)); }
+    }
+    if N == 0 && fam == 6 && !panicked {
+        let total = DROPS.with(|d| d.borrow().values().sum::<u32>()) as usize;
+        if total != 2 * len { return Err(format!("{} zero-sized elements and their {} clones: {} destructor calls ran", len, len, total)); }
+    }
     // destructor accounting (N >= 4 only: ids are unique there)
     if N >= 4 {
         let bad: Vec<(u32, u32)> = DROPS.with(|d| d.borrow().iter().filter(|(_, c)| **c > 1).map(|(a, b)| (*a, *b)).collect());
